@@ -6,7 +6,7 @@ C06 also runs C08-R5 (per-row copy of lengths, vectors and column values during 
 import ast
 
 from ..report import rule
-from .. import norm, cfg as cfgmod, guards
+from .. import pm, norm, cfg as cfgmod, guards
 from ..model import AnalysisError
 from .common import calls_of, find_calls, returns_of, is_abstract_body, bind_args
 
@@ -29,18 +29,24 @@ def c06_r1(ctx):
     prog = ctx.prog
     wp = prog.method("writing.SegmentWriter", "write_per_doc", inherited=False)
     ctx.saw(wp)
+    A = pm.Alpha(wp)
     fa = guards.Facts(wp)
     dm_defs = {}
     for n in fa.g.nodes:
         a = n.ast
-        if n.kind == "stmt" and isinstance(a, ast.Assign) and norm.canon(a.targets[0]) == "docmap":
-            dm_defs[norm.canon(a.value)] = sorted(fa.at(n) or [])
+        if n.kind == "stmt" and isinstance(a, ast.Assign):
+            for val in ("{}", "None"):
+                if A.eq(a, "docmap = %s" % val):
+                    dm_defs[val] = sorted(fa.at(n) or [])
     ctx.ob(wp, dm_defs.get("{}") == [("T", "reader.has_deletions()")] and dm_defs.get("None") == [("F", "reader.has_deletions()")],
            "docmap = {} iff reader.has_deletions(), else None", detail=str(dm_defs))
     # docmap[docnum] = self.docnum  before  self.docnum += 1
     order = []
+    loops = [lp for lp in ast.walk(wp.node) if isinstance(lp, ast.For) and A.eq(lp.iter, "reader.iter_docs()")]
+    if len(loops) == 1 and isinstance(loops[0].target, ast.Tuple) and isinstance(loops[0].target.elts[0], ast.Name):
+        A.eq(loops[0].target.elts[0], "docnum")
     for st in ast.walk(wp.node):
-        if isinstance(st, ast.Assign) and norm.canon(st.targets[0]) == "docmap[docnum]":
+        if isinstance(st, ast.Assign) and isinstance(st.targets[0], ast.Subscript) and A.eq(st.targets[0], "docmap[docnum]"):
             order.append(("map", norm.canon(st.value), st.lineno))
         if isinstance(st, ast.AugAssign) and norm.canon(st.target) == "self.docnum":
             order.append(("inc", norm.canon(st.value), st.lineno))
@@ -50,61 +56,75 @@ def c06_r1(ctx):
     kinds = [(k, v) for k, v, _ in order]
     ctx.ob(wp, kinds == [("map", "self.docnum"), ("start", "self.docnum"), ("inc", "1")],
            "per document: docmap[old] = self.docnum, start_doc(self.docnum), then self.docnum += 1", detail=str(kinds))
-    rets = [norm.canon(r.value) for r in returns_of(wp)]
-    ctx.ob(wp, rets == ["docmap"], "write_per_doc returns the docmap", detail=str(rets))
+    rets = [r.value for r in returns_of(wp)]
+    ctx.ob(wp, len(rets) == 1 and A.eq(rets[0], "docmap"), "write_per_doc returns the docmap", detail=str([norm.canon(r) for r in rets]))
     pp = prog.method("writing.SegmentWriter", "_process_posts", inherited=False)
     ctx.saw(pp)
+    B = pm.Alpha(pp)
     fa2 = guards.Facts(pp)
     nd = {}
     for n in fa2.g.nodes:
         a = n.ast
-        if n.kind == "stmt" and isinstance(a, ast.Assign) and norm.canon(a.targets[0]) == "newdoc":
-            nd[norm.canon(a.value)] = sorted(t for t in (fa2.at(n) or []) if "docmap" in t[1])
-    ctx.ob(pp, nd.get("docmap[docnum]") == [("T", "(None is not docmap)")] and nd.get("(docnum + startdoc)") == [("F", "(None is not docmap)")],
+        if n.kind == "stmt" and isinstance(a, ast.Assign):
+            for val in ("docmap[docnum]", "docnum + startdoc"):
+                if B.eq(a, "newdoc = %s" % val):
+                    nd[val] = sorted(t for t in (fa2.at(n) or []) if "docmap" in t[1])
+    ctx.ob(pp, nd.get("docmap[docnum]") == [("T", "(None is not docmap)")] and nd.get("docnum + startdoc") == [("F", "(None is not docmap)")],
            "postings are renumbered through docmap when it exists, else by startdoc + docnum", detail=str(nd))
-    ys = [norm.canon(y.value) for y in ast.walk(pp.node) if isinstance(y, ast.Yield)]
-    ctx.ob(pp, ys == ["(fieldname, text, newdoc, weight, vbytes)"], "the renumbered posting keeps field, text, weight and value", detail=str(ys))
+    ys = [y.value for y in ast.walk(pp.node) if isinstance(y, ast.Yield)]
+    lps = [lp for lp in ast.walk(pp.node) if isinstance(lp, ast.For) and B.eq(lp, "for fieldname, text, docnum, weight, vbytes in items: ANY")] if False else \
+        [lp for lp in ast.walk(pp.node) if isinstance(lp, ast.For) and B.eq(lp.iter, "items") and B.eq(lp.target, "(fieldname, text, docnum, weight, vbytes)")]
+    ctx.ob(pp, len(ys) == 1 and len(lps) == 1 and B.eq(ys[0], "(fieldname, text, newdoc, weight, vbytes)"),
+           "the renumbered posting keeps field, text, weight and value", detail=str([norm.canon(y) for y in ys]))
     ar = prog.method("writing.SegmentWriter", "add_reader", inherited=False)
     ctx.saw(ar)
+    C = pm.Alpha(ar)
     seq = []
     for st in ar.node.body:
         t = norm.stmt_text(st)
-        if "basedoc = self.docnum" in t:
+        if C.eq(st, "basedoc = self.docnum"):
             seq.append("base")
         if "self.write_per_doc(" in t:
-            seq.append("perdoc:" + norm.canon(st.targets[0]) if isinstance(st, ast.Assign) else "perdoc")
+            seq.append("perdoc:docmap" if C.eq(st, "docmap = self.write_per_doc(ANY, reader)") else "perdoc")
         if "self.add_postings_to_pool(" in t:
-            c = [x for x in norm.calls_in(st) if norm.call_name(x) == "add_postings_to_pool"][0]
-            seq.append("posts:" + ",".join(norm.canon(a) for a in c.args))
+            seq.append("posts:reader,basedoc,docmap" if C.eq(st, "self.add_postings_to_pool(reader, basedoc, docmap)") else "posts:" + C.text(st))
     ctx.ob(ar, seq == ["base", "perdoc:docmap", "posts:reader,basedoc,docmap"],
            "add_reader: basedoc captured first, then per-doc copy, then postings with (reader, basedoc, docmap)", detail=str(seq))
     ms = prog.method("multiproc.MpWriter", "_merge_subsegments", inherited=False)
     ctx.saw(ms)
+    D = pm.Alpha(ms)
     loop = [n for n in ast.walk(ms.node) if isinstance(n, ast.For) and "results" in norm.canon(n.iter)]
     ok = False
     if loop:
         seq = []
         for st in loop[0].body:
             t = norm.stmt_text(st)
-            if t.startswith("basedoc = self.docnum"):
+            if D.eq(st, "basedoc = self.docnum"):
                 seq.append("base")
             if "self.write_per_doc(" in t:
                 seq.append("perdoc")
             if "_read_and_renumber_run(" in t:
                 c = [x for x in norm.calls_in(st) if norm.call_name(x) == "_read_and_renumber_run"][0]
-                seq.append("run:" + ",".join(norm.canon(a) for a in c.args))
+                seq.append("run:runname,basedoc" if len(c.args) == 2 and D.eq(c.args[1], "basedoc") and
+                           isinstance(loop[0].target, ast.Tuple) and isinstance(c.args[0], ast.Name) and
+                           c.args[0].id in norm.names_in(loop[0].target) else "run:" + D.text(c))
         ok = seq == ["base", "perdoc", "run:runname,basedoc"]
     ctx.ob(ms, ok, "per sub-segment: basedoc captured before write_per_doc; the run is renumbered by that basedoc")
     # the parent's own documents are numbered first, so its per-document reader must be first in the combined reader
+    # (the list is the one the MultiPerDocumentReader is built from)
+    lists = [norm.canon(c.args[0]) for c in norm.calls_in(ms.node) if norm.call_name(c) == "MultiPerDocumentReader" and c.args]
     own = [c for c in norm.calls_in(ms.node) if norm.call_name(c) in ("insert", "append") and
-           norm.canon(norm.receiver(c)) == "pdrs" and "self.per_document_reader()" in norm.canon(c)]
+           norm.canon(norm.receiver(c)) in lists and "self.per_document_reader()" in norm.canon(c)]
     ctx.ob(ms, len(own) == 1 and norm.call_name(own[0]) == "insert" and norm.canon(own[0].args[0]) == "0",
            "the parent writer's per-document reader is placed first (its documents have the lowest numbers)",
-           detail=str([norm.canon(c) for c in own]))
+           detail=str([D.text(c) for c in own]))
     rr = prog.method("multiproc.MpWriter", "_read_and_renumber_run", inherited=False)
-    gens = [norm.canon(n.elt) for n in ast.walk(rr.node) if isinstance(n, ast.GeneratorExp)]
-    ctx.ob(rr, gens == ["(fname, text, (docnum + offset), weight, value)"], "runs are renumbered by adding the offset to the docnum element only",
-           detail=str(gens))
+    E = pm.Alpha(rr)
+    gens = [n for n in ast.walk(rr.node) if isinstance(n, ast.GeneratorExp)]
+    ok = len(gens) == 1 and E.eq(gens[0].elt, "(fname, text, (docnum + offset), weight, value)") and \
+        E.eq(gens[0].generators[0].target, "(fname, text, docnum, weight, value)")
+    ctx.ob(rr, ok, "runs are renumbered by adding the offset to the docnum element only",
+           detail=str([norm.canon(g.elt) for g in gens]))
 
 
 @rule("C06", "R2", "K11", "merge policies partition the segment list: merged away or kept, never both or neither",
@@ -128,32 +148,51 @@ def c06_r2(ctx):
                    detail="loops %s returns %s" % (loops, rets))
         else:
             # MERGE_SMALL: each segment is appended to exactly one of the two lists
+            A = pm.Alpha(f)
             fa = guards.Facts(f)
+            # roles: the merged list is what the add_reader loop iterates; the kept list is the returned local;
+            # the flag is the local initialised to False
+            mloops = [n for n in ast.walk(f.node) if isinstance(n, ast.For) and any(norm.call_name(c) == "add_reader" for c in norm.calls_in(n))]
+            roles_ok = len(mloops) == 1 and A.eq(mloops[0].iter, "segments_to_merge")
+            for r in returns_of(f):
+                if isinstance(r.value, ast.Name) and r.value.id != "segments":
+                    roles_ok = A.eq(r.value, "unchanged_segments") and roles_ok
+            roles_ok = any(A.eq(st, "merge_point_found = False") for st in f.node.body) and roles_ok
+            flag, keep, mrg = A.name("merge_point_found"), A.name("unchanged_segments"), A.name("segments_to_merge")
             apps = {}
             for n in fa.g.nodes:
                 for frag in cfgmod.node_exprs(n):
                     for c in norm.calls_in(frag):
-                        if norm.call_name(c) == "append" and norm.canon(norm.receiver(c)) in ("unchanged_segments", "segments_to_merge"):
-                            apps[norm.canon(norm.receiver(c))] = sorted(t for t in (fa.at(n) or []) if "merge_point_found" in t[1])
-            excl = apps.get("unchanged_segments") == [("T", "merge_point_found")] and apps.get("segments_to_merge") == [("F", "merge_point_found")]
+                        if norm.call_name(c) == "append" and norm.canon(norm.receiver(c)) in (keep, mrg):
+                            role = "unchanged_segments" if norm.canon(norm.receiver(c)) == keep else "segments_to_merge"
+                            apps[role] = sorted((p_, t.replace(flag, "merge_point_found")) for (p_, t) in (fa.at(n) or []) if flag in t)
+            excl = roles_ok and apps.get("unchanged_segments") == [("T", "merge_point_found")] and apps.get("segments_to_merge") == [("F", "merge_point_found")]
             ctx.ob(f, excl, "each segment goes to exactly one of unchanged_segments / segments_to_merge", detail=str(apps))
             # merged ones are the ones passed to add_reader; return unchanged (or everything when nothing is merged)
             fa_ret = {}
             for n in fa.g.nodes:
                 if n.kind == "return":
-                    fa_ret[norm.canon(n.ast.value)] = sorted(t for t in (fa.at(n) or []) if "merge_point_found" in t[1] or "segments_to_merge" in t[1])
-            loops = [norm.canon(n.iter) for n in ast.walk(f.node) if isinstance(n, ast.For) and any(norm.call_name(c) == "add_reader" for c in norm.calls_in(n))]
-            ok = loops == ["segments_to_merge"] and set(fa_ret) == {"unchanged_segments", "segments"} and \
-                any(p == "T" for (p, t) in fa_ret["unchanged_segments"])
+                    fa_ret[A.text(n.ast.value)] = sorted((p_, t) for (p_, t) in (fa.at(n) or []) if flag in t or mrg in t)
+            ok = roles_ok and set(fa_ret) == {"unchanged_segments", "segments"} and \
+                any(p_ == "T" for (p_, t) in fa_ret["unchanged_segments"])
             ctx.ob(f, ok, "exactly segments_to_merge is merged; unchanged_segments is returned then, otherwise the whole input",
-                   detail="merge loop over %s; returns %s" % (loops, fa_ret))
-            src = [norm.canon(n.iter) for n in ast.walk(f.node) if isinstance(n, ast.For) and "sorted_segment_list" in norm.canon(n.iter)]
-            srt = [norm.canon(st.value) for st in ast.walk(f.node) if isinstance(st, ast.Assign) and norm.canon(st.targets[0]) == "sorted_segment_list"]
-            ctx.ob(f, bool(src) and bool(srt) and srt[0].startswith("sorted(segments"), "the partition ranges over all input segments", detail=str(srt))
+                   detail="returns %s" % (fa_ret,))
+            # the partition loop ranges over a sorted copy of all input segments
+            ploops = [n for n in ast.walk(f.node) if isinstance(n, ast.For) and n not in mloops and
+                      any(norm.call_name(c) == "append" for c in norm.calls_in(n))]
+            ok = False
+            srt = []
+            for lp in ploops:
+                e = norm.inline_defs(lp.iter, f.node)
+                srt.append(norm.canon(e))
+                inner = [c for c in norm.calls_in(e) if norm.call_name(c) == "sorted" and c.args and norm.canon(c.args[0]) == "segments"]
+                ok = ok or bool(inner)
+            ctx.ob(f, len(ploops) == 1 and ok, "the partition ranges over all input segments", detail=str(srt))
     cm = prog.method("writing.SegmentWriter", "commit", inherited=False)
-    txt = norm.stmt_text(cm.node)
-    ctx.ob(cm, "finalsegments = self._merge_segments(mergetype, optimize, merge)" in txt and
-           "finalsegments.append(self._finalize_segment())" in txt and "self._commit_toc(finalsegments)" in txt,
+    F = pm.Alpha(cm)
+    sts = pm.stmts_of(cm.node)
+    ctx.ob(cm, F.has(sts, "finalsegments = self._merge_segments(mergetype, optimize, merge)") and
+           F.has(sts, "finalsegments.append(self._finalize_segment())") and F.has(sts, "self._commit_toc(finalsegments)"),
            "commit publishes the policy's kept segments plus the new segment")
     mg = prog.method("writing.SegmentWriter", "_merge_segments", inherited=False)
     rets = [norm.canon(r.value) for r in returns_of(mg)]
@@ -192,8 +231,11 @@ def c06_r3(ctx):
         ok = any("bisect_right(" in r and "- 1)" in r for r in rets)
         ctx.ob(f, ok, "locates a document with bisect_right(offsets, docnum) - 1", detail=str(rets))
     mcr = prog.method("columns.MultiColumnReader", "__init__", inherited=False)
-    txt = norm.stmt_text(mcr.node)
-    ctx.ob(mcr, "self._doc_offsets.append(self._doccount)" in txt and "self._doccount += len(r)" in txt and "self._doc_offsets = offsets" in txt,
+    G = pm.Alpha(mcr)
+    sts = pm.stmts_of(mcr.node)
+    lps = [lp for lp in sts if isinstance(lp, ast.For) and G.eq(lp.iter, "readers") and G.eq(lp.target, "r")]
+    ctx.ob(mcr, len(lps) == 1 and G.has(lps[0].body, "self._doc_offsets.append(self._doccount)") and G.has(lps[0].body, "self._doccount += len(r)")
+           and G.has(sts, "self._doc_offsets = offsets"),
            "MultiColumnReader uses the caller's offsets or the same recurrence over its readers' lengths")
 
 
